@@ -74,9 +74,12 @@ def sigmak_case(case):
         with pm.Model():
             P = xu.with_unit(pm.Uniform("P", 0.001, 1e5), pu)
             ev = xu.with_unit(pm.Uniform("e", 0.0, 0.99), u.one)
+            mku = U(case.get("maxkunit", case["kunit"]))
+            kw = {}
+            if not (case.get("default_maxk") and Fraction(*case["maxK"]) == 500):
+                kw["max_K"] = np.float64((float(Fraction(*case["maxK"])) * kms).to_value(mku)) * mku     # the cap in ITS OWN unit
             K = FixedCompanionMass("K", P=P, e=ev, sigma_K0=np.float64((float(Fraction(*case["sK0"])) * kms).to_value(ku)) * ku,
-                                   P0=np.float64((P0d * u.day).to_value(p0u)) * p0u,
-                                   max_K=np.float64((float(Fraction(*case["maxK"])) * kms).to_value(ku)) * ku)
+                                   P0=np.float64((P0d * u.day).to_value(p0u)) * p0u, **kw)
             sigma = K.owner.op.dist_params(K.owner)[1]
             f = pytensor.function([P, ev], sigma, on_unused_input="ignore")
             val = float(f(np.float64((Pd * u.day).to_value(pu)), np.float64(e)))
@@ -117,7 +120,7 @@ def lnprior_case(case):
     from thejoker import JokerPrior
     gl, poly, noff = case["gl"], case["poly"], case["noff"]
     tr = {"id": case["id"], "kind": "lnprior", "gl": gl, "poly": poly, "noff": noff, "sampledS": True, "cols": [], "constok": False,
-          "hascol": False, "insupport": False, "raised": False, "kf": ""}
+          "hascol": False, "insupport": False, "kcondok": True, "raised": False, "kf": ""}
     try:
         with pm.Model():
             offs = [xu.with_unit(pm.Normal("dv0_%d" % (j + 1), 0.5 * j, 2.0 + j), u.km / u.s) for j in range(noff)]
@@ -160,6 +163,15 @@ def lnprior_case(case):
             resid.append(float(np.asarray(smp["ln_prior"])[r_]) - float(f(*args)))
         resid = np.array(resid)
         tr["constok"] = bool(np.all(np.isfinite(resid)) and np.ptp(resid) < 1e-7)
+        if gl:
+            # K must be a draw from N(0, sigma_K(P_row, e_row)): z = K / sigma_K(row) has unit variance for joint draws, while
+            # a K conditioned on other (P, e) gives var(z) = E[sigma'^2 / sigma^2] >> 1 for a period prior spanning decades.
+            big = prior.sample(size=3000, generate_linear=True, rng=np.random.default_rng(case["seed"] + 1))
+            Pb = big["P"].to_value(u.day); eb = np.asarray(big["e"]); Kb = big["K"].to_value(u.km / u.s)
+            sig = np.minimum(case["sK0"] * (Pb / case["P0"]) ** (-1.0 / 3.0) / np.sqrt(1 - eb**2), 500.0)
+            vz = float(np.var(Kb / sig))
+            tr["kcondok"] = bool(0.7 < vz < 1.4)
+            tr["var_z"] = vz
         tr["resid_ptp"] = float(np.ptp(resid)) if np.all(np.isfinite(resid)) else -1.0
     except Exception as ex:
         tr["raised"] = True
@@ -192,17 +204,18 @@ def run(ctx, selftest=False):
             xs = [[a, 1], [b, 1], [a * 2, 1], [a * 3, 1], [b, 2], [a, 2], [b * 2, 1], [a * 2 ** (2 * k), 1], [1, 3], [b + 1, 1]]
             cases.append({"id": "lu-%d" % n_, "kind": kind, "i": i, "k": k, "u4s": [0, 1, 2, 3, 4], "xs": xs})
         elif kind == "sigmak":
-            variants = [("d", "d", "km/s"), ("d", "yr", "m/s"), ("oct", "d", "km/s"), ("yr", "oct", "m/s")]
-            for j, (pu, p0u, ku) in enumerate(variants if not quick else [variants[n_ % 4]]):
+            variants = [("d", "d", "km/s", "km/s"), ("d", "yr", "m/s", "km/s"), ("oct", "d", "km/s", "m/s"), ("yr", "oct", "m/s", "m/s")]
+            for j, (pu, p0u, ku, mku) in enumerate(variants if not quick else [variants[n_ % 4], variants[(n_ + 1) % 4]]):
                 cases.append({"id": "sk-%d-%d" % (n_, j), "kind": kind, "sK0": list(c["sK0"]), "p3": list(c["p3"]), "r": list(c["r"]),
-                              "maxK": list(c["maxK"]), "punit": pu, "p0unit": p0u, "kunit": ku})
+                              "maxK": list(c["maxK"]), "punit": pu, "p0unit": p0u, "kunit": ku, "maxkunit": mku,
+                              "default_maxk": bool((n_ + j) % 2)})
         else:
             if quick and (c["poly"] + c["noff"] + int(c["gl"])) % 2 == 0:
                 continue
             if not c["sampledS"]:
                 continue
             cases.append({"id": "lp-%d" % n_, "kind": kind, "gl": c["gl"], "poly": c["poly"], "noff": c["noff"], "n": 6, "seed": n_,
-                          "Pmin": rnd.choice([1.0, 2.0]), "Pmax": rnd.choice([64.0, 512.0]), "sK0": rnd.choice([5.0, 30.0]),
+                          "Pmin": rnd.choice([1.0, 2.0]), "Pmax": rnd.choice([4096.0, 65536.0]), "sK0": rnd.choice([5.0, 30.0]),
                           "P0": rnd.choice([8.0, 365.25])})
     for w in ("global", "short", "long"):
         cases.append({"id": "kip-" + w, "kind": "kipping", "which": w})
